@@ -2476,6 +2476,15 @@ def _get_slice_comprehension_ifs(
     fst_ = get_slice_nosep(self, start, stop, len_body, cut, ret_ast,
                            loc_first, loc_last, bound_ln, bound_col, bound_end_ln, bound_end_col, options)
 
+    if cut and stop == len_body and ast.__class__ is comprehension and (parent := self.parent):  # if cut last `if` then need to check if joined alnums with potential following `comprehension`
+        parent_body = parent.a.generators
+        next_idx = self.pfield.idx + 1
+
+        if next_idx < len(parent_body):  # only if self was not last comprehension in list
+            ln, col, _, _ = parent_body[next_idx].f.loc
+
+            self._fix_joined_alnums(ln, col)
+
     return fst_
 
 
